@@ -481,6 +481,11 @@ class Models:
                 len({x[0] for x in items}) == len(items):
             # tuples with pairwise distinct concrete first components: later components are never compared
             return sorted(items, key=lambda x: x[0], reverse=reverse)
+        if key is not None:
+            keys = [ip.call(key, [x], {}) for x in items]
+            if not has_sym(keys):
+                order = sorted(range(len(items)), key=lambda i: keys[i], reverse=bool(reverse))
+                return [items[i] for i in order]
         raise Unsupported('sorted with symbolic keys')
 
     def m_dict(self, ip, *args, **kwargs):
@@ -949,6 +954,35 @@ class Models:
         last = c.v.ek.wrap(e[z3.Length(e) - 1])
         c.v = SSeq(z3.Extract(e, z3.IntVal(0), z3.Length(e) - 1), c.pycls, c.v.ek)
         return last
+
+    def sq_sort(self, ip, c, key=None, reverse=False):
+        """list.sort(key=f) on a list of unknown length: ASSUMED contract of the builtin (stable sort):
+        the result B is a permutation of the old content A (bijection PI with inverse), sorted by key.
+        Stability (equal keys keep their order) is part of the assumption but is not needed by any obligation."""
+        if not isinstance(c, Cell):
+            py_raise(AttributeError, 'sort')
+        if ip.truth(reverse):
+            raise Unsupported('sort(reverse=True) on a list of unknown length')
+        ctx = ip.ctx
+        A = c.v.e
+        ek = c.v.ek
+        n = z3.Length(A)
+        B = ctx.fresh('sorted', ek.seqsort)
+        ctx.nfresh += 1
+        PI = z3.Function('PI!%d' % ctx.nfresh, z3.IntSort(), z3.IntSort())
+        PIinv = z3.Function('PIinv!%d' % ctx.nfresh, z3.IntSort(), z3.IntSort())
+
+        def keyof(e):
+            if key is None:
+                return ek.unwrap(ek.wrap(e)) if ek is INT_EK else e
+            v = ip.call(key, [ek.wrap(e)], {})
+            return zr(v) if isinstance(v, (SReal, float)) else zi(v)
+        ctx.assume(z3.Length(B) == n)
+        ctx.assume(dsl.All(0, n, lambda i: z3.And(0 <= PI(i), PI(i) < n, PIinv(PI(i)) == i, B[PI(i)] == A[i])))
+        ctx.assume(dsl.All(0, n, lambda j: z3.And(0 <= PIinv(j), PIinv(j) < n, PI(PIinv(j)) == j)))
+        ctx.assume(dsl.All(0, n - 1, lambda j: keyof(B[j]) <= keyof(B[j + 1])))
+        ctx.__dict__.setdefault('trace', []).append(('sort', A, B, key))
+        c.v = SSeq(B, c.pycls, ek)
 
     def sq_clear(self, ip, c):
         c.v = SSeq(z3.Empty(c.v.ek.seqsort), c.pycls, c.v.ek)
